@@ -755,10 +755,10 @@ fn main() {
             }
         }
     };
-    let favour = |ws: &[f64], k: usize, seeds: u64, counts: &[u64]| {
+    let favour = |cmp: &[f64], ws: &[f64], k: usize, seeds: u64, counts: &[u64]| {
         for i in 0..ws.len() {
             for j in 0..ws.len() {
-                if ws[i] > ws[j] && counts[i] < counts[j] {
+                if cmp[i] > cmp[j] && counts[i] < counts[j] {
                     let shape = if ws[j] <= 0.0 { "nonpositive-beats-positive" } else { "lighter-chosen-more-often" };
                     run.violation_lazy("C17.favour", feats(&[("entry", "WeightedSampler::sample_nodes".into()), ("shape", shape.into())]), || {
                         (
@@ -791,7 +791,7 @@ fn main() {
                 for s in 0..seeds {
                     sample_call(&mut lo, ws, k, s, Some(&mut counts));
                 }
-                favour(ws, k, seeds, &counts);
+                favour(ws, ws, k, seeds, &counts);
             }
             lo.flush(&cx);
         });
@@ -820,7 +820,7 @@ fn main() {
                 if all_ok && ws.iter().all(|w| !w.is_nan()) {
                     // 16 seeds: only classes whose keys cannot tie are compared: nonpositive < tiny (key 0) < 1 (key in (0,1)) < {1e308, +inf} (key 1.0)
                     let class: Vec<f64> = ws.iter().map(|w| if *w <= 0.0 { -1.0 } else if *w < 1e-300 { 0.0 } else if *w >= 1e308 { 2.0 } else { 1.0 }).collect();
-                    favour(&class, k, seeds2, &counts);
+                    favour(&class, ws, k, seeds2, &counts);
                 }
             }
             lo.flush(&cx);
